@@ -31,9 +31,13 @@ type C15Sc struct {
 	// SplitMw: a message middleware hands the batch items to the rest of the chain one at a time (several
 	// continuation calls for one request message) and merges the answers: still one request, one placeholder
 	SplitMw bool `json:"split_mw,omitempty"`
+	// DetachMw: a batch-item middleware hands the handlers a context that does not descend from the one it received
+	// (context.Background() with a deadline, say): no handler can reach the request's placeholder any more, stores
+	// through such a context fail, and reads through it see nothing, least of all another request's value
+	DetachMw bool `json:"detach_mw,omitempty"`
 }
 
-var c15Actions = []string{"pr", "pw", "pr,pw", "pw,pr", "pc", "pg", "pw,et", "pw,ps", "y2,pr", "pr,y2,pw,y1,pr", "pw,y3,pr", "y1,pg", "pc,pr", "pw,pc,pr", "ok", "et", "pz", "pw,pz,pr", "pz,pr", "px", "pw,px,pr", "nq", "pw,nq,pr", "nq,pr", "pr,nq,pw"}
+var c15Actions = []string{"pr", "pw", "pr,pw", "pw,pr", "pc", "pg", "pw,et", "pw,ps", "y2,pr", "pr,y2,pw,y1,pr", "pw,y3,pr", "y1,pg", "pc,pr", "pw,pc,pr", "ok", "et", "pz", "pw,pz,pr", "pz,pr", "px", "pw,px,pr", "nq", "pw,nq,pr", "nq,pr", "pr,nq,pw", "dx,pw", "dx,pr", "dx,pw,pr", "pw,dx,pr", "dx,pg", "dx,pz,pr", "pr,dx,pw"}
 
 func genC15(g *simrt.Tape, tier string) any {
 	sc := &C15Sc{Direct: g.Draw(3) == 0}
@@ -42,7 +46,7 @@ func genC15(g *simrt.Tape, tier string) any {
 		var cn C15Conn
 		nr := 1 + g.Draw(3)
 		for r := 0; r < nr; r++ {
-			rs := ReqSc{Version: 4, Option: g.Draw(3), Hdr: genHdr(g)}
+			rs := ReqSc{Version: 4, Option: g.Draw(3), Hdr: genHdr(g), IDs: genIDs(g)}
 			// (direct callers) the request's context may be cancelled already, or be cancelled by one of its handlers:
 			// the executor goes on with the batch all the same, and so does the placeholder
 			rs.Ctx = []int{0, 0, 0, 0, 1, 2}[g.Draw(6)]
@@ -70,6 +74,7 @@ func genC15(g *simrt.Tape, tier string) any {
 	sc.Chunk = []int{simnet.ChunkMax, simnet.ChunkRandom}[g.Draw(2)]
 	sc.WrapMw = g.Draw(3) == 0
 	sc.SplitMw = g.Draw(4) == 0
+	sc.DetachMw = g.Draw(8) == 0
 	return sc
 }
 
@@ -151,12 +156,18 @@ func checkPlaceholder(x *X, trace []hEvent, order map[string]int) {
 				return
 			}
 			c.vals = map[string]bool{val: true}
+		case "dread":
+			if ev.Value != "" {
+				sig := "detached-context-sees-a-value"
+				x.Reportf("C15.foreign-placeholder", sig, "item %s read the placeholder through a context that belongs to no request and observed %q", ev.ID, ev.Value)
+				return
+			}
 		case "getx":
 			// resolving an explicit id is not a store: what it returns is not judged here, only that later reads
 			// still see the last stored value (the cell is left alone)
 		case "end":
 			// after a failed item the statement does not say whether the value survives: both accepted
-			if itemFails(ItemSc{Tok: strings.Join(tokenActions(ev.Token), ",")}) {
+			if ev.Err || itemFails(ItemSc{Tok: strings.Join(tokenActions(ev.Token), ",")}) {
 				c.vals[""] = true
 			}
 		}
@@ -176,6 +187,12 @@ func execC15(x *X, scAny any) {
 		w.exec.BatchItemUse(func(next kmipserver.BatchItemNext, ctx context.Context, bi *kmip.RequestBatchItem) (*kmip.ResponseBatchItem, error) {
 			simrt.Yield("item-mw")
 			return next(context.WithValue(ctx, k2{}, "item-mw"), bi)
+		})
+	}
+	if sc.DetachMw {
+		w.exec.BatchItemUse(func(next kmipserver.BatchItemNext, ctx context.Context, bi *kmip.RequestBatchItem) (*kmip.ResponseBatchItem, error) {
+			s.Fault("placeholder-through-detached-context")
+			return next(context.WithValue(context.Background(), detachedKey{}, true), bi)
 		})
 	}
 	if sc.SplitMw {
@@ -310,6 +327,24 @@ func c15Floor(tier string) []*C15Sc {
 			items[k].Tok = "cc," + items[k].Tok
 		}
 		out = append(out, &C15Sc{Direct: true, Conns: []C15Conn{{Reqs: []ReqSc{rs, {Version: 4, Items: []ItemSc{{Tok: "pr"}}}}}}})
+	}
+	// placeholder accessors called through a context that belongs to no request, by the handler or because a batch-item
+	// middleware swapped the context: a store in one request, reads in a later one and on another connection
+	for _, direct := range []bool{true, false} {
+		for _, wr := range []string{"dx,pw", "pw,dx,pw", "dx,pw,pr", "dx,pz,pw"} {
+			for _, rd := range []string{"dx,pr", "dx,pg", "pr,dx,pr"} {
+				out = append(out, &C15Sc{Direct: direct, Conns: []C15Conn{
+					{Reqs: []ReqSc{{Version: 4, Option: 1, Items: []ItemSc{{Tok: wr}, {Tok: rd}}}, {Version: 4, Items: []ItemSc{{Tok: rd}, {Tok: "pw"}, {Tok: rd}}}}},
+					{Reqs: []ReqSc{{Version: 4, Items: []ItemSc{{Tok: "y2," + rd}, {Tok: rd}}}}},
+				}})
+			}
+		}
+		for _, wr := range []string{"pw", "pw,pr", "pz,pw"} {
+			out = append(out, &C15Sc{Direct: direct, DetachMw: true, Conns: []C15Conn{
+				{Reqs: []ReqSc{{Version: 4, Option: 1, Items: []ItemSc{{Tok: wr}, {Tok: "pr"}}}, {Version: 4, Items: []ItemSc{{Tok: "pr"}, {Tok: "pg"}}}}},
+				{Reqs: []ReqSc{{Version: 4, Items: []ItemSc{{Tok: "y2,pr"}, {Tok: "pg"}}}}},
+			}})
+		}
 	}
 	// every combination of optional header elements around "store, read, store, read" on one connection
 	for _, h := range allHdrs() {
